@@ -16,6 +16,7 @@ Record facts := {
   k_refund_to_sender : bool;
   k_leftover_is_limit_minus_used : bool;              (* EthereumTx: msg.Gas() - resp.GasUsed when positive *)
   k_refund_price_is_effective_price : bool;           (* EffectiveGasPriceWeiPerGas(base fee) *)
+  k_sync_only_evm_addresses : bool;                    (* SyncStateDBWithAccount returns early unless len(address) = 20 *)
   k_refund_cap_applied : bool                         (* gasToRefund(GetRefund(), gasUsed), gasUsed / RefundQuotientEIP3529 *)
 }.
 
@@ -23,7 +24,8 @@ Definition facts_ok (f : facts) : bool :=
   (k_wei_per_unibi f =? WEI) && (0 <? k_base_fee_unibi f) &&
   k_fee_is_native_of_effective_fee f && k_fee_deducted_from_signer f &&
   k_refund_is_native_of_leftover_times_price f && k_refund_from_fee_collector f && k_refund_to_sender f &&
-  k_leftover_is_limit_minus_used f && k_refund_price_is_effective_price f.
+  k_leftover_is_limit_minus_used f && k_refund_price_is_effective_price f &&
+  k_sync_only_evm_addresses f.
 
 (** informational only (how GasUsed itself is computed belongs to C03, the payment is exact for whatever GasUsed is
     reported): the EIP-3529 cap min(counter, gasUsed / quotient) is applied *)
